@@ -169,3 +169,87 @@ def sweep_C14(ctx):
     if ctx.model.pages and ctx.model.pref:
         ctx.res.nontrivial = True
     ctx.note("C14", len(before[0]), len(before[1]))
+
+
+# ---------------------------------------------------------------------------
+# C14 on crash-recovered states: a reachable index state is also what a
+# process finds after a dirty stop (C18's states).  Same oracle: no write
+# event, same bytes.
+class _ShimSut(object):
+    def __init__(self, traph, disk):
+        self.traph = traph
+        self.disk = disk
+        self.backend = "sim"
+
+    def stores(self):
+        t = self.traph
+        return bytes(self.disk.files[t.lru_trie_path]), bytes(self.disk.files[t.link_store_path])
+
+
+def run_C14(case):
+    from .engine import Ctx, Result, Violation, Foreign, run_sequential
+
+    if not case.get("crash"):
+        return run_sequential(case, sweep_C14, prop="C14")
+    import hashlib
+    import random
+
+    from . import crash as CR
+    from .simdisk import SimDisk
+    from traph.traph import TraphException
+
+    cfg = case["config"]
+    log, spans, snaps, ok, why, model = CR.record_history(cfg, case["ops"])
+    res = Result()
+    h = hashlib.sha256()
+    if not ok:
+        res.foreign = why
+        res.digest = h.hexdigest()
+        return res
+    owner = []
+    for i, (a, b) in enumerate(spans):
+        owner.extend([i] * (b - a))
+    rng = random.Random(case.get("obs_seed", 0))
+    n = len(log)
+    cuts = [k for k in range(1, n) if CR.classify_cut(log, k) == "cut_between_head_and_tail"]
+    others = [k for k in range(1, n + 1) if k not in cuts]
+    rng.shuffle(others)
+    cuts = cuts[:6] + others[: case["crash"].get("sample", 8)]
+    try:
+        for k in sorted(set(cuts)):
+            i = owner[k - 1]
+            rules = dict(snaps[i - 1][2]) if i >= 1 else {}
+            rules.update(snaps[i][2])
+            files = SimDisk.state_at(log, k)
+            try:
+                t, d = CR.reopen_on(files, snaps[i][3], rules)
+            except TraphException:
+                continue
+            except Exception:
+                continue  # C18's business
+            ctx = Ctx.__new__(Ctx)
+            ctx.case, ctx.prop, ctx.cfg, ctx.res = case, "C14", cfg, res
+            ctx.h = h
+            ctx.model = model
+            ctx.sut = _ShimSut(t, d)
+            ctx.disk = d
+            ctx.obs_rng = random.Random(case.get("obs_seed", 0) + k)
+            ctx.op_index = -1
+            ctx.log_mark = len(d.log)
+            res.stats["crash_states_queried"] += 1
+            c = CR.classify_cut(log, k)
+            if c:
+                res.probes["queried_after_" + c] += 1
+            try:
+                sweep_C14(ctx)
+            finally:
+                t.close()
+        h.update(repr(sorted(set(cuts))).encode())
+        if res.stats["crash_states_queried"] >= 3:
+            res.nontrivial = True
+    except Violation as v:
+        res.violation = (v.clause, "crash state after write event %d/%d: %s" % (k, n, v.detail))
+    except Foreign as f:
+        res.foreign = (f.clause, f.detail)
+    res.digest = h.hexdigest()
+    return res
